@@ -1,19 +1,657 @@
 package main
 
-// Effect rules: obligations over the call trace of a function (typestate, method-set templates).
+// Effect clauses: obligations over the call trace of a function (typestate, ordering, method-set templates).
+//
+//	//@ effect[Label] every <pattern> [needs before|after <pattern>] [where <Go bool expr>]
+//
+// pattern:  recvExpr.Method(args) [-> (results)]      call of an interface method on the value of recvExpr
+//	         _.Method(args)                              ... on any receiver
+//	         recvExpr.$M(args)                           ... any method ($M is bound to the method name, a string)
+//	         f(args) | pkg.F(args) | x.method(args)      static call of a function or concrete method (receiver is not matched)
+//	args:    _ (anything)   __ (all remaining arguments)   $x (captured)   T($x) (captured, matches only arguments of type T)
+//
+// Semantics: for every event E of the function's trace that matches the `every` pattern, under E's reachability
+// condition: the `where` condition holds; with `needs before|after P`, some event F matching P exists before|after E
+// for which the `where` condition (which may mention captures of both patterns) holds.
 
-type EffectRule struct {
-	Prop string
-	Name string
-	File string
-	Pkg  string
-	Body []string
+import (
+	"fmt"
+	"go/ast"
+	"go/parser"
+	"go/types"
+	"regexp"
+	"sort"
+	"strings"
+
+	"golang.org/x/tools/go/packages"
+	"golang.org/x/tools/go/ssa"
+)
+
+type EffectRule struct{ Prop string } // kept for the driver's rule hook (unused)
+
+// replayEffect: effect obligations are not replayed from the model (the inputs are interface values); a hand-written
+// driver under /verif/replay/drivers may stand in (see replayObligation).
+func replayEffect(ctx *Context, r *OblResult, outDir string) (bool, string) {
+	return false, "effect obligation: no generic replay of interface-typed inputs"
 }
 
 func parseRules(path string, overlay []byte) ([]*EffectRule, error) { return nil, nil }
+func (c *Context) runRule(r *EffectRule) []*FuncResult                { return nil }
 
-func (c *Context) runRule(r *EffectRule) []*FuncResult { return nil }
+type capture struct {
+	name  string // without the cap_ prefix
+	typ   string // Go type as source text ("" = from the signature)
+	pos   int    // argument position; for results: result index
+	isRes bool
+}
 
-func replayEffect(ctx *Context, r *OblResult, outDir string) (bool, string) {
-	return false, "effect obligations are replayed by hand-written drivers"
+type callPattern struct {
+	src      string
+	recvSrc  string // "" for static calls, "_" for any receiver
+	method   string // "" when the method is a variable
+	methVar  string // capture name of the method variable
+	static   string // full name of the static callee
+	nargs    int    // number of argument patterns before `__` (or all)
+	rest     bool   // `__` present
+	caps     []capture
+	recvFunc string // lowered function returning the receiver value
+	iface    *types.Interface
+}
+
+type EffectClause struct {
+	Label    string
+	Line     int
+	Every    *callPattern
+	NeedsDir string // "" | before | after
+	Needs    *callPattern
+	Where    string
+	whereFn  string
+}
+
+type MethodSelector struct {
+	RecvName string
+	TypeName string // *T or T
+	Of       string // pkg.Interface (source text) or ""
+	Match    *regexp.Regexp
+	In       map[string]bool
+	Except   map[string]bool
+}
+
+func parseSelector(rest string) (*MethodSelector, error) {
+	fs := strings.Fields(rest)
+	if len(fs) < 2 {
+		return nil, fmt.Errorf("methods: need <recvName> <*Type>")
+	}
+	sel := &MethodSelector{RecvName: fs[0], TypeName: fs[1]}
+	for i := 2; i < len(fs); i++ {
+		switch fs[i] {
+		case "of":
+			i++
+			if i < len(fs) {
+				sel.Of = fs[i]
+			}
+		case "matching":
+			i++
+			if i < len(fs) {
+				re, err := regexp.Compile(fs[i])
+				if err != nil {
+					return nil, err
+				}
+				sel.Match = re
+			}
+		case "in", "except":
+			m := map[string]bool{}
+			kind := fs[i]
+			for i+1 < len(fs) && fs[i+1] != "of" && fs[i+1] != "matching" && fs[i+1] != "in" && fs[i+1] != "except" {
+				i++
+				m[fs[i]] = true
+			}
+			if kind == "in" {
+				sel.In = m
+			} else {
+				sel.Except = m
+			}
+		default:
+			return nil, fmt.Errorf("methods: unexpected %q", fs[i])
+		}
+	}
+	return sel, nil
+}
+
+func parseEffect(ec *EffectClause, text string) error {
+	text = strings.TrimSpace(text)
+	if !strings.HasPrefix(text, "every ") {
+		return fmt.Errorf("effect clause must start with `every`")
+	}
+	text = strings.TrimSpace(text[6:])
+	if i := strings.Index(text, " where "); i >= 0 {
+		ec.Where = strings.TrimSpace(text[i+7:])
+		text = strings.TrimSpace(text[:i])
+	}
+	if i := strings.Index(text, " needs "); i >= 0 {
+		n := strings.TrimSpace(text[i+7:])
+		text = strings.TrimSpace(text[:i])
+		dir, pat, ok := strings.Cut(n, " ")
+		if !ok || (dir != "before" && dir != "after") {
+			return fmt.Errorf("needs must be followed by before|after and a pattern")
+		}
+		ec.NeedsDir = dir
+		p, err := parsePattern(pat)
+		if err != nil {
+			return err
+		}
+		ec.Needs = p
+	}
+	p, err := parsePattern(text)
+	if err != nil {
+		return err
+	}
+	ec.Every = p
+	ec.Where = strings.ReplaceAll(ec.Where, "$", "cap_")
+	return nil
+}
+
+func parsePattern(s string) (*callPattern, error) {
+	p := &callPattern{src: s}
+	s = strings.ReplaceAll(s, "$", "cap_")
+	callS, resS, hasRes := strings.Cut(s, "->")
+	ex, err := parser.ParseExpr(strings.TrimSpace(callS))
+	if err != nil {
+		return nil, fmt.Errorf("pattern %q: %v", s, err)
+	}
+	call, ok := ex.(*ast.CallExpr)
+	if !ok {
+		return nil, fmt.Errorf("pattern %q is not a call", s)
+	}
+	switch f := call.Fun.(type) {
+	case *ast.SelectorExpr:
+		p.recvSrc = types.ExprString(f.X)
+		if strings.HasPrefix(f.Sel.Name, "cap_") {
+			p.methVar = strings.TrimPrefix(f.Sel.Name, "cap_")
+		} else {
+			p.method = f.Sel.Name
+		}
+	case *ast.Ident:
+		p.method = f.Name
+	default:
+		return nil, fmt.Errorf("pattern %q: unsupported callee", s)
+	}
+	for i, a := range call.Args {
+		switch x := a.(type) {
+		case *ast.Ident:
+			switch {
+			case x.Name == "_":
+			case x.Name == "__":
+				p.rest = true
+				if i != len(call.Args)-1 {
+					return nil, fmt.Errorf("pattern %q: __ must be last", s)
+				}
+				continue
+			case strings.HasPrefix(x.Name, "cap_"):
+				p.caps = append(p.caps, capture{name: strings.TrimPrefix(x.Name, "cap_"), pos: i})
+			default:
+				return nil, fmt.Errorf("pattern %q: argument %s must be _, __ or a $capture (put equalities into `where`)", s, x.Name)
+			}
+		case *ast.CallExpr:
+			id, ok := x.Args[0].(*ast.Ident)
+			if len(x.Args) != 1 || !ok || !strings.HasPrefix(id.Name, "cap_") {
+				return nil, fmt.Errorf("pattern %q: typed capture must be T($x)", s)
+			}
+			p.caps = append(p.caps, capture{name: strings.TrimPrefix(id.Name, "cap_"), typ: types.ExprString(x.Fun), pos: i})
+		default:
+			return nil, fmt.Errorf("pattern %q: unsupported argument", s)
+		}
+		p.nargs = i + 1
+	}
+	if hasRes {
+		resS = strings.Trim(strings.TrimSpace(resS), "()")
+		for i, r := range strings.Split(resS, ",") {
+			r = strings.TrimSpace(r)
+			if strings.HasPrefix(r, "cap_") {
+				p.caps = append(p.caps, capture{name: strings.TrimPrefix(r, "cap_"), pos: i, isRes: true})
+			}
+		}
+	}
+	return p, nil
+}
+
+// ---------- template expansion ----------
+
+// expandTemplates replaces every `methods` template of a package by one contract per selected method.
+func expandTemplates(pkg *packages.Package, cs []*FuncContract) ([]*FuncContract, error) {
+	var out []*FuncContract
+	for _, fc := range cs {
+		if fc.Sel == nil {
+			out = append(out, fc)
+			continue
+		}
+		tn := strings.TrimPrefix(fc.Sel.TypeName, "*")
+		obj := pkg.Types.Scope().Lookup(tn)
+		if obj == nil {
+			return nil, fmt.Errorf("%s:%d: unknown type %s", fc.File, fc.Line, tn)
+		}
+		T := obj.Type()
+		if strings.HasPrefix(fc.Sel.TypeName, "*") {
+			T = types.NewPointer(T)
+		}
+		var iface *types.Interface
+		if fc.Sel.Of != "" {
+			it, err := evalType(pkg, fc.Sel.Of)
+			if err != nil {
+				return nil, fmt.Errorf("%s:%d: %v", fc.File, fc.Line, err)
+			}
+			iface, _ = it.Underlying().(*types.Interface)
+			if iface == nil {
+				return nil, fmt.Errorf("%s:%d: %s is not an interface", fc.File, fc.Line, fc.Sel.Of)
+			}
+		}
+		ms := types.NewMethodSet(T)
+		var names []string
+		sigs := map[string]*types.Signature{}
+		for i := 0; i < ms.Len(); i++ {
+			m := ms.At(i).Obj().(*types.Func)
+			name := m.Name()
+			if iface != nil {
+				found := false
+				for k := 0; k < iface.NumMethods(); k++ {
+					if iface.Method(k).Name() == name {
+						found = true
+					}
+				}
+				if !found {
+					continue
+				}
+			}
+			if fc.Sel.Match != nil && !fc.Sel.Match.MatchString(name) {
+				continue
+			}
+			if fc.Sel.In != nil && !fc.Sel.In[name] {
+				continue
+			}
+			if fc.Sel.Except[name] {
+				continue
+			}
+			names = append(names, name)
+			sigs[name] = m.Type().(*types.Signature)
+		}
+		sort.Strings(names)
+		if len(names) == 0 {
+			return nil, fmt.Errorf("%s:%d: method selector matches no method", fc.File, fc.Line)
+		}
+		for _, name := range names {
+			cp := *fc
+			cp.Sel = nil
+			cp.Func = "(" + fc.Sel.TypeName + ")." + name
+			cp.sig = sigs[name]
+			cp.invs = map[int][]string{}
+			cp.regions = map[string]string{}
+			cp.posts = nil
+			cp.EffectCl = nil
+			for _, ec := range fc.EffectCl {
+				e2 := *ec
+				ev := *ec.Every
+				e2.Every = &ev
+				if ec.Needs != nil {
+					nd := *ec.Needs
+					e2.Needs = &nd
+				}
+				cp.EffectCl = append(cp.EffectCl, &e2)
+			}
+			out = append(out, &cp)
+		}
+	}
+	return out, nil
+}
+
+func evalType(pkg *packages.Package, src string) (types.Type, error) {
+	ex, err := parser.ParseExpr(src)
+	if err != nil {
+		return nil, err
+	}
+	info := &types.Info{Types: map[ast.Expr]types.TypeAndValue{}}
+	// file scope of the first file: imports are visible there
+	pos := pkg.Syntax[0].End() - 1
+	for _, f := range pkg.Syntax {
+		if len(f.Imports) > 0 {
+			pos = f.End() - 1
+		}
+	}
+	if err := types.CheckExpr(pkg.Fset, pkg.Types, pos, ex, info); err != nil {
+		// try every file (imports differ per file)
+		for _, f := range pkg.Syntax {
+			info = &types.Info{Types: map[ast.Expr]types.TypeAndValue{}}
+			if e2 := types.CheckExpr(pkg.Fset, pkg.Types, f.End()-1, ex, info); e2 == nil {
+				return info.Types[ex].Type, nil
+			}
+		}
+		return nil, err
+	}
+	return info.Types[ex].Type, nil
+}
+
+// ---------- lowering ----------
+
+// lowerEffects generates, for every effect clause of fc, the receiver functions and the where function.
+func (lc *lowerCtx) lowerEffects(fc *FuncContract, body *strings.Builder, checkPos func(ast.Expr) (types.Type, *types.Info, error)) error {
+	base := fc.base()
+	for k, ec := range fc.EffectCl {
+		capTypes := map[string]string{}
+		for pi, p := range []*callPattern{ec.Every, ec.Needs} {
+			if p == nil {
+				continue
+			}
+			var sig *types.Signature
+			if p.recvSrc != "" && p.recvSrc != "_" {
+				rex, _ := parser.ParseExpr(p.recvSrc)
+				rt, info, err := checkPos(rex)
+				_ = info
+				if err == nil && rt != nil {
+					if it, ok := rt.Underlying().(*types.Interface); ok {
+						// interface receiver: invoke pattern
+						p.iface = it
+						p.recvFunc = fmt.Sprintf("verif_effrecv_%d_%d_%s", k, pi, base)
+						names := lc.usedNames(rex)
+						ps, err := lc.paramList(names, "requires", nil)
+						if err != nil {
+							return err
+						}
+						fmt.Fprintf(body, "func %s(%s) any {\n\treturn %s\n}\n\n", p.recvFunc, ps, p.recvSrc)
+						if p.method != "" {
+							for i := 0; i < it.NumMethods(); i++ {
+								if it.Method(i).Name() == p.method {
+									sig = it.Method(i).Type().(*types.Signature)
+								}
+							}
+							if sig == nil {
+								return fmt.Errorf("pattern %q: interface has no method %s", p.src, p.method)
+							}
+						}
+					} else {
+						// concrete receiver: static method call
+						sex, _ := parser.ParseExpr(p.recvSrc + "." + p.method)
+						_, sinfo, err := checkPos(sex)
+						if err != nil {
+							return fmt.Errorf("pattern %q: %v", p.src, err)
+						}
+						if sel, ok := sinfo.Selections[sex.(*ast.SelectorExpr)]; ok {
+							f := sel.Obj().(*types.Func)
+							p.static = f.FullName()
+							sig = f.Type().(*types.Signature)
+						}
+						p.recvSrc = ""
+					}
+				} else {
+					// package-qualified function
+					sex, _ := parser.ParseExpr(p.recvSrc + "." + p.method)
+					_, sinfo, err := checkPos(sex)
+					if err != nil {
+						return fmt.Errorf("pattern %q: %v", p.src, err)
+					}
+					if f, ok := sinfo.Uses[sex.(*ast.SelectorExpr).Sel].(*types.Func); ok {
+						p.static = f.FullName()
+						sig = f.Type().(*types.Signature)
+					} else {
+						return fmt.Errorf("pattern %q: cannot resolve callee", p.src)
+					}
+					p.recvSrc = ""
+				}
+			} else if p.recvSrc == "" {
+				// plain function of this package
+				if f, ok := lc.pkg.Types.Scope().Lookup(p.method).(*types.Func); ok {
+					p.static = f.FullName()
+					sig = f.Type().(*types.Signature)
+				} else {
+					return fmt.Errorf("pattern %q: unknown function %s", p.src, p.method)
+				}
+			}
+			for ci := range p.caps {
+				c := &p.caps[ci]
+				if c.typ == "" {
+					if sig == nil {
+						return fmt.Errorf("pattern %q: capture $%s needs a type: T($%s)", p.src, c.name, c.name)
+					}
+					var t types.Type
+					if c.isRes {
+						if c.pos >= sig.Results().Len() {
+							return fmt.Errorf("pattern %q: no result %d", p.src, c.pos)
+						}
+						t = sig.Results().At(c.pos).Type()
+					} else {
+						if c.pos >= sig.Params().Len() {
+							return fmt.Errorf("pattern %q: no parameter %d", p.src, c.pos)
+						}
+						t = sig.Params().At(c.pos).Type()
+						if sig.Variadic() && c.pos == sig.Params().Len()-1 {
+							return fmt.Errorf("pattern %q: cannot capture a variadic parameter", p.src)
+						}
+					}
+					c.typ = types.TypeString(t, lc.g.qualifier)
+				} else {
+					// make sure the type's package is imported by the generated file
+					if tt, err := evalTypeIn(lc, c.typ); err == nil {
+						c.typ = types.TypeString(tt, lc.g.qualifier)
+					}
+				}
+				capTypes["cap_"+c.name] = c.typ
+			}
+			if p.methVar != "" {
+				capTypes["cap_"+p.methVar] = "string"
+			}
+		}
+		where := ec.Where
+		if where == "" {
+			where = "true"
+		}
+		low, err := lowerExpr(where)
+		if err != nil {
+			return err
+		}
+		wex, err := parser.ParseExpr(low)
+		if err != nil {
+			return fmt.Errorf("effect %s: %v in %q", ec.Label, err, low)
+		}
+		names := lc.usedNames(wex)
+		// captures are parameters too
+		seen := map[string]bool{}
+		for _, n := range names {
+			seen[n] = true
+		}
+		ast.Inspect(wex, func(n ast.Node) bool {
+			if id, ok := n.(*ast.Ident); ok && strings.HasPrefix(id.Name, "cap_") && !seen[id.Name] {
+				if _, ok := capTypes[id.Name]; ok {
+					names = append(names, id.Name)
+					seen[id.Name] = true
+				}
+			}
+			return true
+		})
+		sort.Strings(names)
+		ps, err := lc.paramList(names, "requires", capTypes)
+		if err != nil {
+			return err
+		}
+		ec.whereFn = fmt.Sprintf("verif_eff_%s_%d_%s", safeName(ec.Label), k, base)
+		fmt.Fprintf(body, "func %s(%s) bool {\n\treturn %s\n}\n\n", ec.whereFn, ps, low)
+	}
+	return nil
+}
+
+func evalTypeIn(lc *lowerCtx, src string) (types.Type, error) { return evalType(lc.pkg, src) }
+
+// ---------- evaluation over the trace ----------
+
+type matchInfo struct {
+	cond string         // additional condition (receiver equality)
+	caps map[string]Val // cap_x -> value
+}
+
+func (e *Engine) matchPattern(sp *ssa.Package, p *callPattern, ev Event, prov func(string) (Val, bool)) (*matchInfo, bool) {
+	mi := &matchInfo{cond: "true", caps: map[string]Val{}}
+	if p.static != "" {
+		if ev.Static == nil || (staticFullName(ev.Static) != p.static && ev.Static.String() != p.static) {
+			return nil, false
+		}
+	} else {
+		if ev.Static != nil || ev.Iface == "" {
+			return nil, false
+		}
+		if p.method != "" && ev.Callee != p.method {
+			return nil, false
+		}
+		if p.recvSrc != "_" {
+			rf := sp.Func(p.recvFunc)
+			if rf == nil {
+				return nil, false
+			}
+			as := e.bindLowered(rf, prov)
+			rv := e.pureCallIn(sp, rf, as, nil, e.entryState)[0]
+			rt, ok := rv.(OpaqueV)
+			if !ok || ev.RecvT == "" {
+				return nil, false
+			}
+			mi.cond = eq(rt.T, ev.RecvT)
+			if mi.cond == "false" {
+				return nil, false
+			}
+			if p.methVar != "" && p.iface != nil {
+				found := false
+				for i := 0; i < p.iface.NumMethods(); i++ {
+					if p.iface.Method(i).Name() == ev.Callee {
+						found = true
+					}
+				}
+				if !found {
+					return nil, false
+				}
+			}
+		}
+		if p.methVar != "" {
+			mi.caps["cap_"+p.methVar] = StrV{smtString(ev.Callee)}
+		}
+	}
+	args := ev.Args
+	if ev.Static != nil && ev.Static.Signature.Recv() != nil && len(args) > 0 {
+		args = args[1:] // the receiver of a concrete method is not part of the pattern's argument list
+	}
+	argTypes := ev.ArgTypes
+	if ev.Static != nil && ev.Static.Signature.Recv() != nil && len(argTypes) > 0 {
+		argTypes = argTypes[1:]
+	}
+	if !p.rest && len(args) != p.nargs || p.rest && len(args) < p.nargs {
+		if p.methVar != "" || p.recvSrc == "_" {
+			return nil, false
+		}
+		return nil, false
+	}
+	for _, c := range p.caps {
+		if c.isRes {
+			if c.pos >= len(ev.Res) {
+				return nil, false
+			}
+			mi.caps["cap_"+c.name] = ev.Res[c.pos]
+			continue
+		}
+		if c.pos >= len(args) {
+			return nil, false
+		}
+		if c.pos < len(argTypes) && argTypes[c.pos] != nil && (p.methVar != "" || p.recvSrc == "_") {
+			// typed capture on a method variable: the argument must have exactly that type
+			have := types.TypeString(argTypes[c.pos], func(pk *types.Package) string { return pk.Name() })
+			want := c.typ
+			if have != want && !strings.HasSuffix(have, "."+want) && !strings.HasSuffix(want, "."+have) {
+				return nil, false
+			}
+		}
+		mi.caps["cap_"+c.name] = args[c.pos]
+	}
+	return mi, true
+}
+
+// effectObligations generates the obligations of the effect clauses of the function under contract.
+func (e *Engine) effectObligations(sp *ssa.Package, fc *FuncContract, fn *ssa.Function, args, bind []Val) {
+	ep := e.entryProvider(fn, args, bind, e.entryState)
+	prov := func(name string) (Val, bool) {
+		if fc.RecvName != "" && name == fc.RecvName && len(args) > 0 {
+			return args[0], true
+		}
+		return ep(name)
+	}
+	for _, ec := range fc.EffectCl {
+		wf := sp.Func(ec.whereFn)
+		if wf == nil {
+			panic(unsupported{"missing lowered effect condition " + ec.whereFn})
+		}
+		evalWhere := func(caps map[string]Val) string {
+			as := e.bindLowered(wf, func(name string) (Val, bool) {
+				if v, ok := caps[name]; ok {
+					return e.thaw(v), true
+				}
+				return prov(name)
+			})
+			return e.pureCallIn(sp, wf, as, nil, e.entryState)[0].(BoolV).T
+		}
+		matched := 0
+		for _, ev := range e.events {
+			mi, ok := e.matchPattern(sp, ec.Every, ev, prov)
+			if !ok {
+				continue
+			}
+			matched++
+			reach := and(ev.Guard, mi.cond)
+			var goal string
+			if ec.Needs == nil {
+				goal = evalWhere(mi.caps)
+			} else {
+				var dis []string
+				for _, fv := range e.events {
+					if ec.NeedsDir == "before" && fv.Seq >= ev.Seq || ec.NeedsDir == "after" && fv.Seq <= ev.Seq {
+						continue
+					}
+					mf, ok := e.matchPattern(sp, ec.Needs, fv, prov)
+					if !ok {
+						continue
+					}
+					caps := map[string]Val{}
+					for k, v := range mi.caps {
+						caps[k] = v
+					}
+					for k, v := range mf.caps {
+						caps[k] = v
+					}
+					dis = append(dis, and(fv.Guard, mf.cond, evalWhere(caps)))
+				}
+				goal = or(dis...)
+			}
+			callee := ev.Callee
+			if ev.Static != nil {
+				callee = ev.Static.Name()
+			}
+			if ob := e.oblige("effect", ec.Label+":"+callee, reach, goal, ev.Pos); ob == nil && goal != "true" {
+				_ = ob
+			}
+		}
+		e.effectMatches[ec.Label] += matched
+	}
+}
+
+// thaw turns the snapshot of a pointer argument back into a pointer the executor can dereference.
+func (e *Engine) thaw(v Val) Val {
+	if sp, ok := v.(SnapPtr); ok {
+		if sp.Content == nil {
+			return PtrV{Nil: sp.Nil, Elem: nil, Name: "snap"}
+		}
+		sv, _ := sp.Content.(StructV)
+		c := e.newCell(nil, "snap")
+		e.inputCells[c] = sp.Content
+		var elem types.Type
+		if sv.Typ != nil {
+			elem = sv.Typ
+		}
+		if sp.ElemT != nil {
+			elem = sp.ElemT
+		}
+		c.Typ = elem
+		return PtrV{Nil: sp.Nil, Cell: c, Elem: elem, Name: fmt.Sprintf("snap#%d", c.id)}
+	}
+	return v
 }
